@@ -136,7 +136,13 @@ func (f *Frame) havocLocs(st *State, locs []Loc) {
 			}
 		case "mapall":
 			key := typeKey(l.ty)
-			for name, as := range c.memSort {
+			var msNames []string
+			for name := range c.memSort {
+				msNames = append(msNames, name)
+			}
+			sort.Strings(msNames)
+			for _, name := range msNames {
+				as := c.memSort[name]
 				if strings.HasPrefix(name, "MAPP_"+key) || strings.HasPrefix(name, "MAPV_"+key) || name == "MAPLEN_"+key {
 					cur := c.memGetRaw(st, name)
 					_, inner := arrSorts(as)
@@ -677,7 +683,9 @@ func (w *World) verifyCase(ct *Contract, caseIdx int) (res *FuncResult) {
 			case specErr:
 				res.Err = "contract-error: " + e.msg
 			default:
-				panic(r)
+				// an internal error of the generator on this function: reported as "cannot be decided" for this
+				// function instead of aborting the whole check
+				res.Err = fmt.Sprintf("outside-subset: internal error while generating verification conditions: %v", r)
 			}
 		}
 	}()
